@@ -147,7 +147,10 @@ func Assert(c bool, label string) {
 func Unreachable(label string)     { panic(assertFailed{label}) }
 func Reach(label string)           {}
 func Symbolic() bool               { return false }
-func PermuteMaps(on bool)          {}
+// PermuteMaps: natively Go randomises map iteration by itself; a harness that depends on it is retried
+var mapsPermuted bool
+
+func PermuteMaps(on bool) { mapsPermuted = mapsPermuted || on }
 
 // Yield marks a point where other goroutines may run; natively it widens race windows.
 func Yield() { time.Sleep(time.Duration(200+yieldJitter()) * time.Microsecond) }
@@ -259,6 +262,9 @@ func RunReplay(t *testing.T, harnesses map[string]func()) {
 		case res = <-resCh:
 		case <-time.After(limit):
 			res = fmt.Sprintf("panic deadlock: the harness did not return within %v", limit)
+		}
+		if i == 0 && mapsPermuted && runs < 300 && !strings.Contains(r.Detail, "deadlock") {
+			runs = 300 // map-iteration-order dependent counterexample: retry until the order shows up
 		}
 		if res != "ok" || i == runs-1 {
 			fmt.Println("VERIF-REPLAY-RESULT: " + res)
